@@ -38,6 +38,7 @@ type admissionArgs struct {
 	Mix     int    `json:"mix,omitempty"`     // 0: alone; 1: after an allowed message; 2: before an allowed message
 	BadSeq  bool   `json:"bad_seq,omitempty"`
 	BadSig  bool   `json:"bad_sig,omitempty"`
+	Again   bool   `json:"again,omitempty"` // the same bytes are offered to the mempools a second time
 	Two     bool   `json:"two_signers,omitempty"`
 	InBlock bool   `json:"in_block,omitempty"`
 }
@@ -120,6 +121,15 @@ func (w *World) applyProbeStep(st Step) (string, bool) {
 			return "skip:no-state-yet", true
 		}
 		return w.probeFuzzTx(a, newRand(st.S, "apply")), true
+	case "probe.queries":
+		var a queriesArgs
+		if !jsonArgs(st, &a) {
+			return "bad-args", true
+		}
+		if w.view() == nil {
+			return "skip:no-state-yet", true
+		}
+		return w.probeQueries(a), true
 	case "probe.export":
 		var a exportArgs
 		if !jsonArgs(st, &a) {
@@ -141,7 +151,7 @@ func (w *World) genProbeStep(kind string, r *Rand, sub uint64) (Step, bool) {
 			return mkStep("block", w.genBlock(r), sub), true
 		}
 		a := admissionArgs{TypeIdx: r.Intn(len(urls)), Signer: pick(r, []string{"proposer", "proposer", "voter", "outsider", "validator", "fresh", "authority"}),
-			Memo: r.Chance(0.15), Timeout: pick(r, []string{"", "", "past", "current", "future"}), Mix: pick(r, []int{0, 0, 1, 2}), BadSeq: r.Chance(0.08), BadSig: r.Chance(0.08), Two: r.Chance(0.08), InBlock: r.Chance(0.5)}
+			Memo: r.Chance(0.15), Timeout: pick(r, []string{"", "", "past", "current", "future"}), Mix: pick(r, []int{0, 0, 1, 2}), BadSeq: r.Chance(0.08), BadSig: r.Chance(0.12), Two: r.Chance(0.08), InBlock: r.Chance(0.5), Again: r.Chance(0.3)}
 		return mkStep("probe.admission", a, sub), true
 	case "probe.fuzztx":
 		kinds := []string{"flip", "flip", "truncate", "extend", "zero-run", "bitmap-len", "drop-field", "swap-bytes", "huge-varint"}
@@ -152,8 +162,72 @@ func (w *World) genProbeStep(kind string, r *Rand, sub uint64) (Step, bool) {
 		return mkStep("block", a, sub), true
 	case "probe.export":
 		return mkStep("probe.export", exportArgs{K: 4 + r.Intn(8)}, sub), true
+	case "probe.queries":
+		a := queriesArgs{Node: r.Intn(maxInt(1, w.Cfg.Nodes)), Version: r.Intn(2)}
+		for i, n := 0, 2+r.Intn(5); i < n; i++ {
+			a.Users = append(a.Users, r.Intn(len(w.Users)))
+		}
+		return mkStep("probe.queries", a, sub), true
 	}
 	return Step{}, false
+}
+
+// queriesArgs: several deposit-address queries for different EVM addresses put to one node at the
+// same time (a node serves its gRPC queries concurrently). Under the scheduler they are answered
+// one after the other; on the race build (free mode) they really run in parallel.
+type queriesArgs struct {
+	Node    int   `json:"node"`
+	Users   []int `json:"users"`
+	Version int   `json:"version"`
+}
+
+func (w *World) probeQueries(a queriesArgs) string {
+	if len(w.Nodes) == 0 || len(a.Users) == 0 {
+		return "skip"
+	}
+	n := w.Nodes[a.Node%len(w.Nodes)]
+	if !n.Alive || n.Height == 0 {
+		return "skip:no-node"
+	}
+	type answer struct {
+		evm  common.Address
+		resp *bitcointypes.QueryDepositAddressResponse
+		err  error
+	}
+	out := make([]answer, len(a.Users))
+	ask := func(i int) {
+		out[i].evm = w.Users[a.Users[i]%len(w.Users)]
+		out[i].resp = &bitcointypes.QueryDepositAddressResponse{}
+		out[i].err = n.query("/goat.bitcoin.v1.Query/DepositAddress", &bitcointypes.QueryDepositAddress{Version: uint32(a.Version), EvmAddress: out[i].evm.Hex()}, out[i].resp)
+	}
+	if simrt.IsFree() {
+		var wg sync.WaitGroup
+		for i := range out {
+			wg.Add(1)
+			go func(i int) { defer wg.Done(); ask(i) }(i)
+		}
+		wg.Wait()
+	} else {
+		for i := range out {
+			ask(i)
+		}
+	}
+	w.probe("deposit-addresses-queried-together")
+	// every answer is the address (and data-output script) of the key it names and of the EVM
+	// address that was asked for
+	for _, o := range out {
+		w.Stats.OracleEvals["C17"]++
+		if o.err != nil {
+			w.checkAddressRefusal(n, uint32(a.Version), o.err)
+			continue
+		}
+		script, ok := w.Btc.payScript(o.resp.Address)
+		ref0, ref1, rok := refDepositScripts(uint32(a.Version), o.resp.PublicKey, []byte(w.Cfg.Magic), o.evm.Bytes())
+		if !ok || !rok || !bytes.Equal(script, ref0) || (a.Version == 1 && !bytes.Equal(o.resp.OpReturnScript, ref1)) {
+			w.violate("C17", "handed-out-address-not-for-requested-target", "query-answer", "node %d answered the deposit-address query for %x (version %d) with address %s / data output %x, which is not the address of that key and target (expected %x / %x)", n.ID, o.evm[:6], a.Version, o.resp.Address, o.resp.OpReturnScript, ref0, ref1)
+		}
+	}
+	return "answered"
 }
 
 // ---------------------------------------------------------------------------------------------
@@ -268,6 +342,13 @@ func (w *World) probeAdmission(a admissionArgs, r *Rand) string {
 	}
 	w.Stats.Steps["probe.admission/"+strings.TrimPrefix(url, "/")]++
 	out := w.submit(raw, msgs, nil, "admission/"+url+"/"+a.Signer, false)
+	if a.Again {
+		// whatever a node answered the first time, the same bytes get the same judgement again
+		// (an admitted transaction is now a duplicate for the mempool, which is a refusal)
+		if out2 := w.submit(raw, msgs, nil, "admission-again/"+url+"/"+a.Signer, false); out2 == "admitted" && out != "admitted" {
+			w.probe("refused-then-admitted")
+		}
+	}
 	if a.InBlock {
 		w.ProbeTxs = append(w.ProbeTxs, raw)
 	}
